@@ -7,7 +7,7 @@ from progprop import replay
 def run(tier):
     import os
     seed = int(os.environ.get('VERIF_SEED', '0') or 0)
-    return progprop.run('C02', tier, tmpl.tree_constraints() + tmpl.random_tree_programs(seed + 101, 0 if tier == 'quick' else 300), 'c02',
+    return progprop.run('C02', tier, tmpl.tree_constraints() + tmpl.random_tree_programs(seed + 101, 0 if tier == 'quick' else 100), 'c02',
                         'eq / diseq / conde / fresh programs in several goal orders, executed symbolically from MIR; per feasible path every answer '
                         '(term + attached disequalities) must be logically equivalent to a reference answer over ALL ground instances (z3 datatype), '
                         'and the answer multisets must coincide; every permutation of the constraint goals is its own template with the same reference.')
